@@ -391,3 +391,76 @@ func checkC02(w *SketchWorld, slot int) (fails []mc.Fail) {
 	}
 	return
 }
+
+// checkC05Sketch: on a sketch backed by collapsing stores, every quantile whose
+// true order statistic lies in a retained bin keeps the accuracy guarantee.
+func checkC05Sketch(w *SketchWorld, slot int) (fails []mc.Fail) {
+	md := w.M[slot]
+	sl := w.S[slot]
+	if md.Approx {
+		return
+	}
+	for _, e := range md.Ent {
+		if e.W != 1 {
+			return // the order-statistics oracle is for unit weights
+		}
+	}
+	n := len(md.Ent)
+	if n == 0 {
+		return
+	}
+	q := sl.Q()
+	alpha := specAlpha(md.Spec, md.Map)
+	xs := sortedValues(md.Ent)
+	retained := func(x float64) bool {
+		if z, either := zeroClass(md.Map, x); z || either {
+			return true
+		}
+		side := md.Pos
+		if x < 0 {
+			side = md.Neg
+		}
+		i := md.Map.Index(math.Abs(x))
+		lo, ok1 := side.Min()
+		hi, ok2 := side.Max()
+		if !ok1 || !ok2 || side.Inherited {
+			return false
+		}
+		if side.N == 0 {
+			return !side.Folded
+		}
+		// strictly inside the edge: the edge bin itself also holds folded weight
+		if side.Lowest {
+			return i > lo || !side.Folded
+		}
+		return i < hi || !side.Folded
+	}
+	for _, p := range quantilesFor(n) {
+		y, err := q.GetValueAtQuantile(p)
+		if err != nil {
+			fails = append(fails, mc.Fail{Clause: "C05.sketch-accuracy", Detail: fmt.Sprintf("q=%v refused on a non-empty sketch: %v", p, err)})
+			return
+		}
+		lo, hi := exactRanks(p, float64(n-1))
+		rt := p * float64(n-1)
+		cands := []int64{lo, hi, int64(math.Floor(rt)), int64(math.Ceil(rt))}
+		allRetained, ok := true, false
+		for _, k := range cands {
+			if k < 0 || k >= int64(n) {
+				continue
+			}
+			if !retained(xs[k]) {
+				allRetained = false
+				continue
+			}
+			if matchesValue(md.Map, alpha, y, xs[k], "C05 value accuracy") {
+				ok = true
+			}
+		}
+		if allRetained && !ok {
+			fails = append(fails, mc.Fail{Clause: "C05.sketch-accuracy", Detail: fmt.Sprintf("%s, %s stores, input %v: q=%v answered %v although the order statistics at ranks %d..%d (%v, %v) lie in retained bins", md.Spec, sl.Store, xs, p, y, lo, hi, xs[lo], xs[hi])})
+			return
+		}
+	}
+	return
+}
